@@ -120,7 +120,7 @@ Variable k : kase.
 
 Definition no_method : method19 :=
   {| me_info := {| mi_trait := "?"; mi_method := "?"; mi_has_default := false; mi_partial_by_default := false;
-                   mi_has_unmock_arm := false; mi_out_clone := true |};
+                   mi_has_unmock_arm := false; mi_out_clone := true; mi_more_leaves := 0 |};
      me_sig := [] |}.
 
 Definition kmethod (m : N) : method19 := nth (N.to_nat m) (k_methods k) no_method.
